@@ -447,7 +447,7 @@ def r10_rule_functions_cannot_raise_foreign(chk):
     whitespace split() (empty for blank text; any index >= 1 may be missing), .group() on an unchecked match,
     str.index()."""
     model = chk.model
-    chk.doc('C11.R10', 'no expression in a t_* / p_* function can raise IndexError / AttributeError / ValueError on '
+    chk.doc('C11.R13', 'no expression in a t_* / p_* function can raise IndexError / AttributeError / ValueError on '
                        'some input text: no constant subscript of a whitespace-split() result (or index >= 1 of any '
                        'split), no .group() on an unchecked re.match/search result, no str.index(); whatever an error '
                        'rule quotes from the input is taken by slicing')
@@ -482,11 +482,11 @@ def r10_rule_functions_cannot_raise_foreign(chk):
                             len(x.args) >= 1 and not isinstance(x.func.value, ast.Name):
                         bad.append((x, 'ValueError when the text does not contain it'))
                 for x, why in bad:
-                    chk.ob('C11.R10', '%s.%s/%s' % (c.name, fn.name, norm(x)[:60]), False, where(mod, x),
+                    chk.ob('C11.R13', '%s.%s/%s' % (c.name, fn.name, norm(x)[:60]), False, where(mod, x),
                            '%s: %s - a foreign exception escapes from parse() / compile()' % (norm(x)[:80], why))
                 if not bad:
-                    chk.ob('C11.R10', '%s.%s' % (c.name, fn.name), True, where(mod, fn), '')
-    chk.floor('C11.R10', 150, 'rule functions of lexer and parser')
+                    chk.ob('C11.R13', '%s.%s' % (c.name, fn.name), True, where(mod, fn), '')
+    chk.floor('C11.R13', 150, 'rule functions of lexer and parser')
 
 
 
@@ -501,6 +501,14 @@ def r12_format_arity(chk):
     common.format_arity(chk, 'C11.R12', ['pysmi/parser/smi.py', 'pysmi/lexer/smi.py'], floor=10)
 
 
+
+def r14_text_reaches_the_lexer_as_given(chk):
+    """line numbers in error messages are those of the text the caller gave: parse() must not edit it (shared with
+    C02.R6)"""
+    from rules.C02 import r6_entry_point
+    r6_entry_point(chk, rule='C11.R14')
+
+
 RULES = [r1_located_package_errors, r2_state_totality, r3_progress_and_token_types, r4_line_accounting, r5_p_error,
          r6_parse_result, r7_numeric_conversion, r8_actions_cannot_raise_typeerror, r9_number_classifier,
-         r10_token_rules_return_the_token, r10_rule_functions_cannot_raise_foreign, r11_class_tables_not_mutated, r12_format_arity]
+         r10_token_rules_return_the_token, r10_rule_functions_cannot_raise_foreign, r11_class_tables_not_mutated, r12_format_arity, r14_text_reaches_the_lexer_as_given]
